@@ -1,10 +1,10 @@
 package harness
 
 import (
-	"sort"
 	"crypto/sha256"
 	"encoding/binary"
 	"encoding/hex"
+	"sort"
 )
 
 // prng is the harness's own generator (SplitMix64): plan generation and world set-up.
